@@ -264,6 +264,17 @@ def attachFirst (id : Nat) (s : List Act) : List Reader → List Reader
   | [] => []
   | d :: ds => if d.id = id then { d with cb := some s } :: ds else d :: attachFirst id s ds
 
+/-- what Twisted passes to `connectionLost(reason)`: `Failure(ConnectionDone())` for an orderly close
+    (FIN), `Failure(ConnectionLost())` for a reset, or nothing (`None`, as callers in tests do) -/
+inductive LossReason where
+  | done | reset | none
+  deriving DecidableEq, Repr
+
+/-- `connectionLost(reason)` with its argument: the method never looks at `reason` (pinned against the
+    regenerated call skeleton by `Props.C06.connectionLost_ignores_reason`), so an orderly close cut into the
+    stream by someone without the key is a loss like any other: pending reads and the consumer's Deferred fail -/
+def connectionLostR (a : App) (_reason : LossReason) : App := connectionLost a
+
 def lookupRead (l : List (Nat × Option Bytes)) (id : Nat) : Option (Option Bytes) :=
   (l.find? (fun p => p.1 == id)).map (·.2)
 
@@ -535,7 +546,7 @@ send <S|R> <hex pt> <hex sealed>            -> summary      (send_record; regist
 data <S|R> <hex>                            -> summary      (dataReceived)
 call <S|R> <script>                         -> summary      (application code, outside any callback, makes
                                                              these API calls; a callback's own script is nested)
-lost <S|R>                                  -> summary      (connectionLost)
+lost <S|R> <done|reset|none>                -> summary      (connectionLost(reason): FIN / reset / no argument)
 ```
 summary = `<ok|ExceptionName> st=… buf=<len> sn=… rn=… q=<queued> wait=<ids> cons=<written/expected|-> ev=[new events]`
 
@@ -667,7 +678,13 @@ def stepLine (s : DrvSt) (line : String) : DrvSt × String :=
     match parseScript sc with
     | some acts => onConn s w (fun c => ({ c with app := appCall c.app acts }, none))
     | none => (s, "bad-op")
-  | ["lost", w] => onConn s w (fun c => ({ c with app := connectionLost c.app }, none))
+  | ["lost", w, why] =>
+    let r? : Option LossReason :=
+      if why == "done" then some .done else if why == "reset" then some .reset else if why == "none" then some .none
+      else none
+    match r? with
+    | some r => onConn s w (fun c => ({ c with app := connectionLostR c.app r }, none))
+    | none => (s, "bad-op")
   | _ => (s, "bad-op")
 
 def driver (lines : List String) : List String := runLines stepLine drvInit lines
